@@ -46,6 +46,7 @@ def run(text, args, work, name="t.vhd", deep=False, shuffle=None, repeat=False, 
             oConfig = config.New(cla)
             res = apply_rules.apply_rules(cla, oConfig, (0, tmp))
             obs["exit"] = bool(res[0])
+            obs["diag"] = str(res[4] or "")
     except SystemExit as e:
         obs["status"] = "exit"
         obs["exit"] = bool(e.code)
@@ -495,12 +496,68 @@ def formats_records(job, nid):
     return recs
 
 
+# ------------------------------------------------------------------------------------------------- C19 robustness on damaged inputs
+def mutilate(text, rnd):
+    """a damaged copy of an accepted file: token deleted / duplicated, text truncated, line removed, bracket flipped"""
+    import vlex
+
+    toks = vlex.lex(text)
+    code = [i for i, (k, _) in enumerate(toks) if k not in ("ws", "nl", "cmt", "dcmt", "pre")]
+    if not code:
+        return "truncate", text[: len(text) // 2]
+    how = rnd.choice(["delete", "delete", "duplicate", "truncate", "dropline", "swap", "unclosed"])
+    if how == "delete":
+        i = rnd.choice(code)
+        return how, vlex.unlex(toks[:i] + toks[i + 1:])
+    if how == "duplicate":
+        i = rnd.choice(code)
+        return how, vlex.unlex(toks[: i + 1] + [("ws", " ")] + toks[i:])
+    if how == "truncate":
+        i = rnd.choice(code)
+        return how, vlex.unlex(toks[:i])
+    if how == "dropline":
+        lines = text.split("\n")
+        j = rnd.randrange(len(lines))
+        return how, "\n".join(lines[:j] + lines[j + 1:])
+    if how == "swap":
+        if len(code) < 2:
+            return "truncate", text[: len(text) // 2]
+        a = rnd.randrange(len(code) - 1)
+        i, j = code[a], code[a + 1]
+        t2 = list(toks)
+        t2[i], t2[j] = t2[j], t2[i]
+        return how, vlex.unlex(t2)
+    i = rnd.choice(code)
+    return how, vlex.unlex(toks[:i] + [("sym", "(")] + toks[i:])
+
+
+def robust_records(job, nid):
+    recs = []
+    rnd = random.Random(job["seed"])
+    work = job["work"]
+    for item in job["items"]:
+        text = read(item["path"])
+        for k in range(job.get("per_file", 4)):
+            how, bad = mutilate(text, rnd)
+            o = run(bad, ["--fix"] if k % 2 else ["-ap"], work)
+            out = o["stdout"] + o.get("diag", "")
+            located = bool(re.search(r"Line\s+\d+", out)) and bool(re.search(r"Column\s+\d+", out))
+            nid += 1
+            recs.append({"t": "robust", "id": nid, "file": item["name"], "how": how, "mode": "fix" if k % 2 else "check", "outcome": "crash" if o["status"].startswith("crash") else ("rejected" if o["rejected"] else "accepted"),
+                         "status": o["status"], "located": bool(located), "exit": bool(o["exit"]), "rule_crashes": [hooks_name(c) for c in o["crashes"]][:3], "tail": out[-200:], "tb": o.get("tb", "")[-300:]})
+    return recs
+
+
+def hooks_name(c):
+    return "%s:%s" % (c.get("where"), c.get("exc"))
+
+
 def main():
     job = json.load(open(sys.argv[1]))
     assert hooks.install()
     os.makedirs(job["work"], exist_ok=True)
     nid = job.get("first_id", 0)
-    fn = {"gating": gating_records, "fixphase": fixphase_records, "purity": purity_records, "fixonly": fixonly_records, "formats": formats_records}[job["mode"]]
+    fn = {"gating": gating_records, "fixphase": fixphase_records, "purity": purity_records, "fixonly": fixonly_records, "formats": formats_records, "robust": robust_records}[job["mode"]]
     try:
         recs = fn(job, nid)
     except Exception:
